@@ -412,7 +412,31 @@ pub fn run_check(id: &str, tier: &str, seed: u64) -> i32 {
         merge(&mut agg, e.agg);
         let mut extra = extra;
         let mut e2e_exit = 0;
-        if let Ok(bin) = std::env::var("VMON_PLUGIN_BIN") {
+        if let (Ok(bin), true) = (std::env::var("VMON_PLUGIN_BIN"), id == "C02" || id == "C05") {
+            // real rpc.rs: a pay command that runs for a long time (C02), a connection that dies
+            // after pay was accepted (C05)
+            let slow: Vec<u64> = if id == "C02" { if thorough { vec![35, 35, 65] } else { vec![33] } } else { vec![] };
+            let r = crate::e2e_checks::pay_transport_sessions(&bin, seed, &slow, if id == "C05" { if thorough { 24 } else { 6 } } else { 0 });
+            extra["e2e_pay_transport_sessions"] = r.coverage;
+            let want: &[&str] = if id == "C02" { &["R02|"] } else { &["R05|"] };
+            for (sig, (n, w)) in r.violations.iter() {
+                if !want.iter().any(|p| sig.starts_with(p)) {
+                    *agg.cross.entry(format!("e2e:{sig}")).or_insert(0) += n;
+                    continue;
+                }
+                let dir = format!("{}/replays", out_dir());
+                let _ = std::fs::create_dir_all(&dir);
+                let path = format!("{dir}/{id}-e2e-{}.json", sig.replace('|', "_").chars().take(80).collect::<String>());
+                let _ = std::fs::write(&path, serde_json::to_string_pretty(&json!({"property": id, "engine": "e2e-pay-transport", "signature": sig, "witness": w, "count": n, "seed": seed})).unwrap());
+                println!("VIOLATION property={id} replay={path}");
+                eprintln!("  {sig}: {}", w.chars().take(600).collect::<String>());
+                e2e_exit = 1;
+            }
+            for i in r.inconclusive {
+                *agg.inconclusive.entry(format!("e2e: {i}")).or_insert(0) += 1;
+            }
+        }
+        if let (Ok(bin), true) = (std::env::var("VMON_PLUGIN_BIN"), id != "C02") {
             let r = crate::e2e_checks::crash_sessions(&bin, seed, thorough);
             extra["e2e_crash_sessions"] = r.coverage;
             extra["e2e_rule_evaluations"] = json!(r.evals);
